@@ -64,6 +64,7 @@ func (g *genChooser) random(r *runner) Action {
 	add(7, Action{A: "accept", R: "ok"})
 	add(2*g.p.fail, Action{A: "accept", R: "fail"})
 	add(g.p.fail, Action{A: "accept", R: "lost"})
+	add(g.p.fail, Action{A: "accept", R: "rej", N: g.r.Intn(4)})
 	for i := 0; i < r.s.count("persist"); i++ {
 		add(g.p.persistW, Action{A: "persist", I: i, R: "ok"})
 		add(0.15*g.p.fail, Action{A: "persist", I: i, R: "fail"})
@@ -151,7 +152,7 @@ func (g *genChooser) next(r *runner) (Action, bool) {
 	return g.drain(r)
 }
 
-func newGenChooser(c *gen.Ctx) (*genChooser, int) {
+func newGenChooser(c *gen.Ctx) (*genChooser, int, int) {
 	r := c.R
 	g := &genChooser{r: r}
 	g.p = profiles[r.Intn(len(profiles))]
@@ -162,8 +163,9 @@ func newGenChooser(c *gen.Ctx) (*genChooser, int) {
 		g.maxLogs = 10 + r.Intn(30)
 	}
 	ps := gen.Pick(r, []int{1, 1, 2, 2, 3, 5, 100})
-	g.drainMax = 12*g.maxLogs + 80
-	return g, ps
+	mi := gen.Pick(r, []int{0, 0, 1, 2, 2, 3, 100})
+	g.drainMax = 16*g.maxLogs + 80
+	return g, ps, mi
 }
 
 // ---- running under testing/synctest ---------------------------------------------
@@ -206,16 +208,16 @@ func init() {
 			os.Exit(3)
 		}
 		underSynctest(func(t *testing.T) {
-			one := func(ps int, ch chooser, drain bool) {
+			one := func(ps, mi int, ch chooser, drain bool) {
 				var script []Action
 				var out caseOut
 				synctest.Test(t, func(t *testing.T) {
-					script, out = runCase(ps, ch)
+					script, out = runCase(ps, mi, ch)
 				})
 				if script == nil {
 					script = []Action{}
 				}
-				if err := c.Emit("repl", caseIn{PS: ps, Script: script, Drain: drain}, out); err != nil {
+				if err := c.Emit("repl", caseIn{PS: ps, MI: mi, Script: script, Drain: drain}, out); err != nil {
 					fail(err)
 				}
 				if out.Leak > 0 || len(out.Leftover) > 0 {
@@ -232,13 +234,13 @@ func init() {
 					if err := json.Unmarshal(raw, &in); err != nil {
 						fail(err)
 					}
-					one(in.PS, &replayChooser{script: in.Script}, in.Drain)
+					one(in.PS, in.MI, &replayChooser{script: in.Script}, in.Drain)
 				}
 				return
 			}
 			for i := 0; i < c.N; i++ {
-				g, ps := newGenChooser(c)
-				one(ps, g, true)
+				g, ps, mi := newGenChooser(c)
+				one(ps, mi, g, true)
 			}
 		})
 		return nil
